@@ -39,12 +39,20 @@ func (c *ctx) argBounds() {
 			default:
 				return true
 			}
-			se, ok := astx.Unparen(subject).(*ast.SelectorExpr)
-			if !ok || se.Sel.Name != "Args" || !isASTCallExpr(info.TypeOf(se.X)) {
-				return true
-			}
 			fd := fc.funcDecl(nn)
 			if fd == nil {
+				return true
+			}
+			se, ok := astx.Unparen(subject).(*ast.SelectorExpr)
+			if !ok {
+				// a local that holds the argument list: args := ce.Args
+				if o := astx.IdentObj(info, subject); o != nil {
+					if init := (&lenEval{fc: fc, fd: fd}).singleInit(o); init != nil {
+						se, ok = astx.Unparen(init).(*ast.SelectorExpr)
+					}
+				}
+			}
+			if !ok || se.Sel.Name != "Args" || !isASTCallExpr(info.TypeOf(se.X)) {
 				return true
 			}
 			n++
